@@ -170,4 +170,118 @@ structure OutEpoch where
   et : Rat
 deriving Repr
 
+/-- the part of a resolved demes epoch the conversion reads (`epoch.start_time` … as attributes of a demes `Epoch`) -/
+structure Epoch where
+  fn : SizeFn
+  ss : Rat
+  es : Rat
+  st : ETime
+  et : ETime
+deriving Repr
+
+/-! ### graphs (round 4): what `DemesUtil.slice`, `_augment_with_ancient_samples`, `_get_demographic_events` and
+    `_get_integration_parameters` read and write -/
+
+/-- a deme name.  `base` numbers the names of the input graph; every sampled copy made by `_augment_with_ancient_samples`
+    (`sd + "_sampled_" + <time>`) appends the time to `stamps` -/
+structure DName where
+  base : Nat
+  stamps : List Rat
+deriving DecidableEq, Repr
+
+/-- `sd + f"_sampled_{…(st + t)…}"` -/
+def DName.sampledAt (n : DName) (x : Rat) : DName := { base := n.base, stamps := n.stamps ++ [x] }
+
+/-- a deme as in `g.asdict()["demes"]`, epochs of type `ε` (`InEpoch` before, `OutEpoch` after `_shift_deme_time`) -/
+structure GDeme (ε : Type) where
+  name : DName
+  start : ETime
+  ancestors : List DName
+  proportions : List Rat
+  epochs : List ε
+deriving Repr
+
+/-- a migration.  `sym = none`: an asymmetric migration (`.source`, `.dest`; the only kind a resolved graph holds);
+    `sym = some ds`: an object with `.demes` and no `.source` (the `except AttributeError` branch of
+    `_migration_rate_in_interval`) -/
+structure GMig where
+  source : DName
+  dest : DName
+  sym : Option (List DName)
+  rate : Rat
+  st : ETime
+  et : Rat
+deriving Repr
+
+structure GPulse where
+  sources : List DName
+  dest : DName
+  props : List Rat
+  time : Rat
+deriving Repr
+
+structure Graph (ε : Type) where
+  demes : List (GDeme ε)
+  migs : List GMig
+  pulses : List GPulse
+deriving Repr
+
+/-- an untouched epoch seen as the output type of `_shift_deme_time` (`slice(g, 0)` returns `g` itself) -/
+def InEpoch.toOut (e : InEpoch) : OutEpoch := { fn := e.fn, ss := e.ss, es := some (Sym.r e.es), et := e.et }
+
+def GDeme.toOut (d : GDeme InEpoch) : GDeme OutEpoch :=
+  { name := d.name, start := d.start, ancestors := d.ancestors, proportions := d.proportions, epochs := d.epochs.map InEpoch.toOut }
+
+def Graph.toOut (g : Graph InEpoch) : Graph OutEpoch := { demes := g.demes.map GDeme.toOut, migs := g.migs, pulses := g.pulses }
+
+/-- Python `for x in xs: …; if …: break` whose body appends one element per pass: `step state x = (appended, state', broke)` -/
+def loopBreak {σ α β : Type} (step : σ → α → β × σ × Bool) : σ → List α → List β
+  | _, [] => []
+  | s, x :: rest =>
+      let r := step s x
+      if r.2.2 then [r.1] else r.1 :: loopBreak step r.2.1 rest
+
+/-- Python `for x in xs: if <c x>: break` (no `else`): afterwards `x` is the first element with `c`, or the LAST element when
+    the loop runs to its end (unbound for an empty list) -/
+def forBreak {α : Type} (c : α → Bool) (xs : List α) : Option α :=
+  match xs.find? c with
+  | some x => some x
+  | none => xs.getLast?
+
+/-- `min(xs)` of a non-empty list (0 for the empty one; the caller rejects it) -/
+def listMin : List Rat → Rat
+  | [] => 0
+  | x :: xs => xs.foldl (fun a b => if b < a then b else a) x
+
+/-- state of the loop of `_augment_with_ancient_samples`: the builder's data, the (mutated) list of sampled demes, the frozen
+    names, the dict `renamed` -/
+structure AugSt where
+  demes : List (GDeme OutEpoch)
+  migs : List GMig
+  pulses : List GPulse
+  sampled : List DName
+  frozen : List DName
+  renamed : List (DName × DName)
+deriving Repr
+
+/-- `renamed.get(k, dflt)` -/
+def dictGet (d : List (DName × DName)) (k dflt : DName) : DName :=
+  match d.find? (fun p => p.1 == k) with
+  | some p => p.2
+  | none => dflt
+
+/-- `renamed[k] = v` (insertion order kept, an existing key overwritten) -/
+def dictSet (d : List (DName × DName)) (k v : DName) : List (DName × DName) :=
+  if d.any (fun p => p.1 == k) then d.map (fun p => if p.1 == k then (k, v) else p) else d ++ [(k, v)]
+
+/-- one demographic event as `_get_demographic_events` stores it in `demo_events[time]` -/
+inductive DEvt
+  | pulses (sources : List DName) (dest : DName) (props : List Rat)
+  | branch (parent child : DName)
+  | merge (parents : List DName) (props : List Rat) (child : DName)
+  | admix (parents : List DName) (props : List Rat) (child : DName)
+  | split (parent : DName) (children : List DName)
+  | marginalize (deme : DName)
+deriving DecidableEq, Repr
+
 end DadiVerif.DemesConv
